@@ -68,6 +68,10 @@ def world_template(spec_world: dict) -> tuple[dict, dict]:
             st = worlds.std_stream(s)
             streams.append(st)
             timing_refs[s] = st["timing_ref"]
+    for sdir, name in (spec_world.get("timing_refs") or {}).items():
+        # another file of the stream is its timing reference (the statement of C02 quantifies over that choice)
+        streams = [dict(st, timing_ref=name) if st["dir"] == sdir else st for st in streams]
+        timing_refs[sdir] = name
     if spec_world.get("defaults"):
         # stored per-stream option defaults (set through the stream-defaults form of the management UI)
         streams = [dict(st, defaults=spec_world["defaults"][st["dir"]]) if st["dir"] in spec_world["defaults"] else st
@@ -166,6 +170,10 @@ def generate_live(prop: str, seed: int, tier: str, index: int, *, templates=None
             script.append({"op": "restart"})
         actors.append({"id": "chaos", "kind": "player", "prng": 0, "script": script})
     world = {"streams": streams}
+    ALT_REFS = {"bbb": ["bbb_a1", "bbb_v6"], "tears": ["tears_a1"], "fza": ["fza_a1"], "fzc": ["fzc_a1"],
+                "fzd": ["fzd_a1"], "fze": ["fze_a1"]}
+    if rng.random() < 0.15 and streams[0] in ALT_REFS:
+        world["timing_refs"] = {streams[0]: rng.choice(ALT_REFS[streams[0]])}
     if rng.random() < 0.25:
         # one stream carries stored option defaults (its URLs omit values equal to them; every endpoint must apply
         # them - and only to that stream)
@@ -189,6 +197,7 @@ def execute_live(prop: str, spec: dict, rules: set[str], nontrivial_keys: tuple[
         sim = Sim(world, spec["sched_seed"])
         oracle = MediaOracle(sim, world, rules, timing_refs=timing_refs,
                              judge=lambda a: a.id.startswith("obs"))
+        oracle.alt_refs = set((spec["world"].get("timing_refs") or {}).keys())
         actors = []
         extra = list(extra_observers(sim, world)) if extra_observers else []
         for a in spec["actors"]:
